@@ -42,7 +42,8 @@ MANIFEST = {
             "yields exactly one nested scope, %include_hex raw bytes — (unfolding of the preprocess model for every source text and file "
             "system), and a nested scope contributes exactly the bytes it assembles to as a stand-alone program (own macro table, own "
             "layout from offset zero, nothing shared in either direction); raw bytes advance all later label positions by their full "
-            "length (prefix-sum layout, C01). PARTIAL: 'equivalent to pasting the text' is proved at item level; the text-level paste "
+            "length (prefix-sum layout, C01); %include_hex of a file holding the hex text of bs, surrounded by any white space, yields exactly "
+            "the raw bytes bs (C12_include_hex_exact). PARTIAL: 'equivalent to pasting the text' is proved at item level; the text-level paste "
             "lemma about the grammar is exercised, not proved.",
     "note": "Trusted: Lean kernel; Asm/Ingest.lean (Root, Program, preprocess, resolve_and_ingest) and its concrete Tree file system tied "
             "to etk_asm::ingest by the differential run on generated directory trees materialised on disk; relative-path resolution is "
